@@ -6,6 +6,7 @@ after Parser.parse and again after the full transform pipeline.
 
 from __future__ import annotations
 
+import urllib.parse
 import random
 
 from .. import core, drive, mon, oracle
@@ -69,6 +70,9 @@ RISKY = [
     # explicit ids whose spelling is not the normalised one (upper case, '_', '.', non-ASCII), used twice
     ["{#Fig_1}", "para", "", "{#Fig_1}", "para2", "", "[a](#Fig_1) [b](#fig-1)"], ["[t]{#Sp_A} [u]{#Sp_A} [v]{#sp-a}"], ["# h {#Head_X}", "", "## g {#Head_X}", "", "[](#Head_X)"], ["![a](i.png){#Im_G}", "", "![b](j.png){#Im_G}"],
     ["{#ÜbEr}", "p1", "", "{#über}", "p2", "", "{#UBER}", "p3"], ["```{note}", ":name: My_Name", "x", "```", "", "```{tip}", ":name: My_Name", "y", "```"], ["(My_Target)=", "p", "", "(my-target)=", "q", "", "(My_Target)=", "r"],
+    # links that name the page's own file plus an explicit target whose spelling is not its id
+    ["(My_Target)=", "para", "", "[t](index.md#My_Target) [](index.md#my_target) <project:index.md#My_Target> [u](./index.md#My_Target)"], ["```{note}", ":name: Fig.One", "x", "```", "", "[t](index.md#Fig.One) [](index.md#fig-one) [m](index.md#Nowhere_At.All)"],
+    ["{#Para_Id}", "para", "", "[t](index.md#Para_Id) [](#Para_Id) [v](index.md#para-id)"], ["# Head Line", "", "[t](index.md#head-line) [u](index.md#Head-Line) [v](index.md#Head Line)"],
     # html blocks that are only partly convertible, their names linked to
     ['<img src="a.png" name="hx"><b>tail</b>', "", "[t](#hx) [](#hx)"], ['<div class="admonition" name="ha"><p>x</p></div><span>tail</span>', "", "[t](#ha)"], ['<img src="a.png" name="hy"><img alt="nosrc">', "", "[t](#hy)"],
     ['<img src="a.png" name="hz">', '<div class="admonition" name="hz"><p>x</p></div>', "", "[t](#hz)"], ['text <img src="a.png" name="hi"> <b>b</b> [t](#hi)'], ['<div class="admonition" name="hq">', "<img src=\"q.png\" name=\"hq2\">", "</div>", "", "[a](#hq) [b](#hq2)"],
@@ -189,6 +193,25 @@ def eval_sphinx_tree(ctx, case):
                     key = "ids:duplicate:sphinx-equation-label"
                 ctx.violation(key, f"[{stage}] {what}", case, None)
             ctx.count("sphinx_trees_checked")
+        # (5) through Sphinx: after resolution an internal link names an id of the page, or a 'not found' warning naming its target was logged
+        doc = trees["sphinx-resolved"]
+        present = {i for n in doc.findall(nodes.Element) for i in n.get("ids", [])}
+        recs = None
+        for n in doc.findall(nodes.reference):
+            rid = n.get("refid")
+            if rid is None:
+                continue
+            ctx.count("sphinx_internal_links_checked")
+            if rid in present:
+                continue
+            if recs is None:
+                recs = [r["msg"] for r in b.stream_records()]
+            if any("not found" in m and (rid.lower() in m.lower() or urllib.parse.unquote(rid).lower() in m.lower()) for m in recs):
+                ctx.count("sphinx_dangling_links_with_warning")
+                continue
+            if "{eval-rst}" in case["text"]:
+                continue
+            ctx.violation("refid:dangling:sphinx-resolved", f"[sphinx-resolved] <reference> refid {rid!r} names no id of the page and no 'not found' warning names it", case, {"warnings": recs[:20], "node": str(n)[:300]})
     finally:
         b.close()
     return True
@@ -277,6 +300,16 @@ def run_shard(ctx):
         ctx.case(("sphinx", case["text"], repr(case["cfg"])), True)
         if ctx.time_left() < ctx.budget_s * 0.75:
             break
+    # every risky shape on its own through the Sphinx front end (partitioned over the shards)
+    rcfg = {k: v for k, v in make_case(random.Random(1), 1)["cfg"].items() if k in ("enable_extensions", "substitutions")}
+    for k, shape in enumerate(RISKY):
+        if k % ctx.nshards != ctx.shard:
+            continue
+        case = {"kind": "risky", "text": "\n".join(shape) + "\n", "cfg": rcfg, "doctitle": False, "settings": {}, "front_end": "sphinx"}
+        eval_case(ctx, case)
+        ctx.case(("sphinx-risky", k), True)
+        ctx.count("sphinx_risky_shapes_alone")
+    ctx.subrun("sphinx_risky_shapes", exhaustive=True, shapes=len(RISKY) if ctx.shard == 0 else 0)
     for i in range(n):
         case = make_case(R, i)
         nt = eval_case(ctx, case)
